@@ -162,6 +162,7 @@ type Kernel struct {
 	ServerPanics int
 	Orphans      []Seen // handler invocations with no call id
 	TS           *TSBridge
+	TSCrashes    []string // uncaught exceptions / unhandled rejections reported by the Node process during this run
 	tsQueue      []*tsPending
 	shared       map[string]proto.Message // Plan.SharedMsgs: one instance per (rpc, payload)
 	sharedMu     sync.Mutex
